@@ -456,7 +456,17 @@ class C09(Prop):
             for what, edit in mg.count_field_sweep(a[1], a[2]):
                 cases.append({"kind": "explore", "asset": a[0], "fkind": a[2], "mutation": "count-field", "what": [what],
                               "edits": [edit], "layout": None, "params": {"process_memory": False}, "rules": crules})
-        n_explore += sum(1 for c in cases if c["mutation"] in ("dotnet-index", "macho-entry-sweep", "count-field"))
+        # directed family: RT_VERSION entries whose declared length ends before / inside / right after the wide key and
+        # around the value start, zero and maximal lengths, keys without NUL terminator
+        vrules = [{"tag": "r0", "imports": ["pe"], "cond": "pe.number_of_version_infos >= 0"},
+                  {"tag": "r1", "imports": ["pe"], "cond": "for any k, v in pe.version_info : (k == \"CompanyName\" or v contains \"a\")"}]
+        for a in fmt:
+            if a[2] != "pe" or (len(a[1]) > 100000 and n <= 5000):
+                continue
+            for what, edits in mg.version_string_sweep(a[1]):
+                cases.append({"kind": "explore", "asset": a[0], "fkind": "pe", "mutation": "version-string", "what": [what],
+                              "edits": edits, "layout": None, "params": {"process_memory": False}, "rules": vrules})
+        n_explore += sum(1 for c in cases if c["mutation"] in ("dotnet-index", "macho-entry-sweep", "count-field", "version-string"))
         i = 0
         while len(cases) < n_explore:
             r = rng.fork("m%d" % i)
